@@ -91,7 +91,7 @@ func main() {
 			res := runSeq(*prop, *tier, *name, *shard, *nshards, time.Duration(*budget)*time.Second)
 			writeJSON(*out, res)
 		case "race":
-			res := runRace(*prop, *tier, *name)
+			res := runRace(*prop, *tier, *name, time.Duration(*budget)*time.Second)
 			writeJSON(*out, res)
 		default:
 			fmt.Fprintln(os.Stderr, "unknown kind")
